@@ -132,16 +132,37 @@ def write_xlsx(model, path=None) -> str:
     path = path or new_path()
     wb = openpyxl.Workbook()
     wb.remove(wb.active)
+    raw = {}
     for sh in model['sheets']:
         ws = wb.create_sheet(sh['title'])
         for addr, v in sh['cells'].items():
             if v is None:
+                continue
+            if isinstance(v, dict) and '$rawnum' in v:
+                # a number text that openpyxl would not write itself (an integer beyond the doubles, 1E+999, ...): a unique
+                # placeholder is written and replaced inside the sheet xml afterwards
+                ph = 9_100_000_000_000 + len(raw)
+                raw[str(ph)] = v['$rawnum']
+                ws[addr] = ph
                 continue
             ws[addr] = dec(v)
         if sh.get('dimension'):
             # a stale / understated <dimension> record (other writers leave such records behind): readers must not trust it
             ws.calculate_dimension = (lambda d: (lambda *a, **k: d))(sh['dimension'])
     wb.save(path)
+    if raw:
+        import zipfile
+        tmp = path + '.raw'
+        with zipfile.ZipFile(path) as zin, zipfile.ZipFile(tmp, 'w', zipfile.ZIP_DEFLATED) as zout:
+            for item in zin.infolist():
+                data = zin.read(item.filename)
+                if item.filename.startswith('xl/worksheets/'):
+                    text = data.decode('utf-8')
+                    for ph, num in raw.items():
+                        text = text.replace(f'<v>{ph}</v>', f'<v>{num}</v>')
+                    data = text.encode('utf-8')
+                zout.writestr(item, data)
+        os.replace(tmp, path)
     return path
 
 
